@@ -74,6 +74,7 @@ class Contract:
         # view=True: an assumed, sidecar-local restatement of a callee's contract over opaque values (used only by the
         # functions of this sidecar; the registry keeps the real contract of the target)
         self.view = bool(_kw(deco, 'view', False))
+        self.allows_nonfinite = bool(_kw(deco, 'nonfinite', False))      # the documented result may be nan (stated by an ensures)
         a = fd.args
         self.param_names = [x.arg for x in a.posonlyargs + a.args + a.kwonlyargs]
         self.param_kinds = {x.arg: kinds.parse_kind(x.annotation) for x in a.posonlyargs + a.args + a.kwonlyargs}
